@@ -955,14 +955,15 @@ impl Suite for Receiver {
         match kind {
             3 => {
                 // accumulated values beyond 32 on a wide call site, restart, re-enter (D4 shape)
-                let nf = rng.range(33, 64);
+                // up to three further batches of 32 after the first value set
+                let nf = match rng.below(3) { 0 => rng.range(33, 64), 1 => rng.range(65, 96), _ => rng.range(97, 130) };
                 let site = Site { is_span: true, level: 2, name: "wide".into(), target: "app".into(), module_path: None, file: None, line: None, fields: (0..nf).map(|i| format!("f{i}")).collect() };
                 lines.push(format!("ev {}", Ev::NewCallSite { id: 50, site }.tok()));
                 let first = rng.range(0, 32);
                 lines.push(format!("ev {}", Ev::NewSpan { id: 1, parent: None, mt: 50, values: many_values(first) }.tok()));
                 let mut have = first;
-                while have < nf && rng.chance(4, 5) {
-                    let n = rng.range(1, 32.min(nf - have));
+                while have < nf && rng.chance(9, 10) {
+                    let n = if rng.chance(1, 2) { 32.min(nf - have) } else { rng.range(1, 32.min(nf - have)) };
                     lines.push(format!("ev {}", Ev::Recorded { id: 1, values: (have..have + n).map(|i| (format!("f{i}"), Val::Int(i as i128))).collect() }.tok()));
                     have += n;
                 }
